@@ -182,6 +182,22 @@ func collectStores(p *Prog, key string, destOK func(root string) bool, keep func
 				sig += "  for " + strings.Join(bs, ", ")
 			}
 		}
+		if sigGuards && len(e.Idx) == 0 && len(e.Loops) > 0 && e.Val.MentionsRoot(e.Root) {
+			// a scalar accumulated in a loop: the range it is accumulated over is part of its value
+			L := e.Loops[len(e.Loops)-1]
+			switch {
+			case L.Range && L.RangeX != nil:
+				sig += "  accumulated over range " + fieldOf(x.Info, L.RangeX)
+			case headerBoundField(x, L) != "":
+				sig += "  accumulated over < " + headerBoundField(x, L)
+			default:
+				if _, hi, unit, why := loopBounds(x, L); why == "" && unit {
+					sig += "  accumulated up to " + verRe.ReplaceAllString(hi.String(), "")
+				} else {
+					sig += "  accumulated over an unrecognised loop"
+				}
+			}
+		}
 		if sigGuards {
 			if gs := stateGuardSig(x, e); gs != "" {
 				sig += "  if " + gs
